@@ -22,6 +22,11 @@
 (* final state and replayed on the real condition (harness/check_C10.py,   *)
 (* section `extra`): the three clocks are replaced by scripted ones, so    *)
 (* that the wrong clock, a missed reset or a reversed comparison shows.    *)
+(* Only differences of readings of one clock enter, so the origin of each  *)
+(* clock is arbitrary (Epoch; the harness adds a further offset of the     *)
+(* size of a real time.time()).  A gradient recorded by the solver has a   *)
+(* unit 2^par.sc like the energies of TermMachine: the entry g stands for  *)
+(* g * 2^sc and the tolerance likewise (GradHomogeneous).                  *)
 (***************************************************************************)
 EXTENDS Termination, TLC, Json, SequencesExt, FiniteSetsExt
 
@@ -30,6 +35,7 @@ CONSTANTS Secs,       \* TimeLimits: seconds, in quarter seconds (a timedelta or
           Grads,      \* gradient vectors (small integers)
           GTols,      \* GradientNormTolerance: tolerances <<n,d>>
           Norms,      \* subset of {1, 2, INF}
+          GScales,    \* units of a recorded gradient: exponents s (a gradient of the cost: only 0)
           MaxLen      \* script length
 
 Clocks == {"wall", "perf", "cpu"}            \* system = None, True, False
@@ -55,10 +61,11 @@ L1(g)   == FoldSeq(LAMBDA x, acc : AbsI(x) + acc, 0, g)
 L2sq(g) == FoldSeq(LAMBDA x, acc : x * x + acc, 0, g)
 Linf(g) == Max({AbsI(g[i]) : i \in DOMAIN g})
 \* norm <= tol with tol = n/d (p = 2 in squared form: both sides are >= 0)
-Small(g) == LET n == par.tol[1]  d == par.tol[2] IN
+SmallOn(g, tol) == LET n == tol[1]  d == tol[2] IN
             CASE par.norm = 1   -> L1(g) * d <= n
               [] par.norm = 2   -> L2sq(g) * d * d <= n * n
               [] par.norm = INF -> Linf(g) * d <= n
+Small(g) == SmallOn(g, par.tol)
 \* the numerical gradient is only accurate to ~1e-7: a case ON the boundary is not decidable by it
 OnBoundary(g) == LET n == par.tol[1]  d == par.tol[2] IN
             CASE par.norm = 1   -> L1(g) * d = n
@@ -77,7 +84,7 @@ Init ==
         /\ start = now[par.clock]
         /\ grad = << >>
      \/ /\ kind = "grad"
-        /\ par \in [tol : GTols, norm : Norms, stored : BOOLEAN]
+        /\ par \in {p \in [tol : GTols, norm : Norms, stored : BOOLEAN, sc : GScales] : p.stored \/ p.sc = 0}
         /\ now = ZeroClocks /\ start = 0
         /\ grad \in Grads
 
@@ -134,6 +141,10 @@ MonotoneWithoutReset ==
   [][(kind = "time" /\ Verdict /\ start' = start) => Verdict']_vars
 \* after a reset the limit is reached at once only if it is not positive
 ResetRestarts == [][Reset => (Verdict' <=> par.secs <= 0)]_vars
+
+\* the unit of the gradient does not matter
+GradHomogeneous == kind = "grad" =>
+  (Small(grad) <=> SmallOn([i \in DOMAIN grad |-> 2 * grad[i]], <<2 * par.tol[1], par.tol[2]>>))
 
 Emit == done => PrintT(<<"@@", ToJson([kind |-> kind, par |-> par, script |-> script])>>)
 =============================================================================
